@@ -101,11 +101,14 @@ type oamBugJob struct {
 	cycles int
 	warm   int // PPU-only cycles before the CPU starts (chooses the line)
 	dense  int // 0: random program; 1 + 8*align + kind: denseProgram(kind, align), objects enabled
+	// 100: the PPU is built with its debug flag (Config.DebugLCD), random program;
+	// 200 + align: a HALT executed *from OAM* (IME clear, V-blank enabled) during the scan, woken in V-blank
 }
 
 func oamBugRun(j oamBugJob) *trace.Scenario {
 	rng := rand.New(rand.NewSource(j.seed))
-	m := machine.New(intROM, machine.Options{})
+	m := machine.New(intROM, machine.Options{DebugLCD: j.dense == 100})
+	oamCode := j.dense >= 200
 	sc := &trace.Scenario{ID: j.id, Reset: []any{j.seed, j.offAt, j.cycles, j.warm, j.dense}}
 	var writes [][]int
 	on := false
@@ -117,7 +120,7 @@ func oamBugRun(j oamBugJob) *trace.Scenario {
 	defer func() { memory.VerifBusObserver = nil }()
 	perr := machine.Try(func() {
 		code := oamProgram(rng, 0x1200)
-		if j.dense > 0 {
+		if j.dense > 0 && j.dense < 100 {
 			code = denseProgram((j.dense-1)%8, (j.dense-1)/8)
 		}
 		code = append(code, 0xc3, 0x00, 0xc0)
@@ -129,15 +132,29 @@ func oamBugRun(j oamBugJob) *trace.Scenario {
 		for i := 0; i < 160; i++ {
 			m.O.Write(uint16(0xfe00+i), uint8(rng.Intn(256)))
 		}
-		if j.dense > 0 {
+		if oamCode {
+			// the program lives in OAM row 0 (never corrupted): NOPs, HALT, JR back to the HALT
+			prog := []int{0x00, 0x00, 0x00, 0x76, 0x00, 0x18, 0xfc, 0x00}
+			for i, b := range prog {
+				m.O.Write(uint16(0xfe00+i), uint8(b))
+			}
+		}
+		if j.dense > 0 && j.dense < 100 {
 			m.P.WriteLCDC(0x93) // objects on: the PPU then moves through OAM rows during the pixel transfer as well
 		} else {
 			m.P.WriteLCDC(0x91)
 		}
 		r := m.CPU.VerifGet()
 		r.PC, r.SP = 0xc000, 0xdff0
+		if oamCode {
+			r.PC = uint16(0xfe00 + (j.dense-200)%3)
+		}
 		m.CPU.VerifSet(r)
 		m.I.Disable()
+		if oamCode {
+			m.I.WriteIE(0x01)
+			m.I.WriteIF(0x00)
+		}
 		// let the PPU run a little so that it has touched OAM before the guest does
 		for i := 0; i < j.warm; i++ {
 			m.P.EndMachineCycle()
@@ -148,7 +165,7 @@ func oamBugRun(j oamBugJob) *trace.Scenario {
 			}
 			if m.CPU.VerifAtBoundary() {
 				st := m.CPU.VerifGet()
-				if op := int(m.M.VerifPeek(st.PC)); undefinedOps[op] || op == 0x10 || st.PC < 0xc000 || st.PC >= 0xd300 {
+				if op := int(m.M.VerifPeek(st.PC)); undefinedOps[op] || op == 0x10 || ((st.PC < 0xc000 || st.PC >= 0xd300) && !(oamCode && st.PC >= 0xfe00 && st.PC < 0xfe08)) {
 					break // the program left the prepared area (harness guard, not a verdict)
 				}
 			}
@@ -221,6 +238,18 @@ func oamBugMain(c *Ctx) {
 	for i := 0; i < count; i++ {
 		w.Put(oamBugRun(oamBugJob{fmt.Sprintf("oambug-on-%d", n), rng.Int63n(1 << 40), -1, 6000, 3 + rng.Intn(17000), 0}))
 		n++
+	}
+	// the debug build of the PPU (Config.DebugLCD), LCD switched off: nothing may go on stepping
+	for k := 0; k < 114; k += 4 * step {
+		w.Put(oamBugRun(oamBugJob{fmt.Sprintf("oambug-dbg-%d", n), rng.Int63n(1 << 40), 30 + k, 30 + k + 900, 3 + []int{1, 70, 150}[k%3]*114, 100}))
+		n++
+	}
+	// a HALT fetched from OAM during the scan (every cycle of the scan in turn), woken by V-blank
+	for _, line := range []int{140, 136} {
+		for k := 0; k < 24; k++ {
+			w.Put(oamBugRun(oamBugJob{fmt.Sprintf("oambug-haltoam-%d", n), rng.Int63n(1 << 40), -1, (146-line)*114 + 400, line*114 - 2 + k, 200 + k}))
+			n++
+		}
 	}
 	// dense trigger loops, LCD on: over the end of the frame (line 153 into line 0) and over visible lines
 	aligns := 6
